@@ -197,6 +197,10 @@ fn mutations(t: &Tlv) -> Vec<(String, Vec<u8>)> {
         }
         out.push((format!("len=0@{}", name), enc_with(t, p, &Lie::LenAbs(0, 1))));
         out.push((format!("len=0x7fffffff@{}", name), enc_with(t, p, &Lie::LenAbs(0x7fff_ffff, 4))));
+        // announced sizes no buffer can hold: 2^32 in 5 octets, 2^63-1 and 2^64-1 in 8
+        out.push((format!("len=2^32@{}", name), enc_with(t, p, &Lie::LenAbs(1usize << 32, 5))));
+        out.push((format!("len=2^63-1@{}", name), enc_with(t, p, &Lie::LenAbs(usize::MAX >> 1, 8))));
+        out.push((format!("len=2^64-1@{}", name), enc_with(t, p, &Lie::LenAbs(usize::MAX, 8))));
         for n in [1u8, 2, 3, 4, 8] {
             out.push((format!("form{}@{}", n, name), enc_with(t, p, &Lie::Form(n))));
         }
@@ -466,6 +470,23 @@ pub fn run(tier: Tier) -> i32 {
         // the unmutated message under an ID in use by the other kind of operation
         muts.push((format!("{}:unmutated", name), m.encode(), is_search_item));
     }
+    // frames nobody waits for - an unsolicited notification (ID 0) and a response under an unused
+    // ID - mutated the same way; the operations pending on ID 1 must not be hurt by them
+    let n_matched = muts.len();
+    for (prefix, id, names) in [("id0", 0i64, vec!["extended/noctl", "extended/1ctl", "bind/noctl"]), ("unused777", 777, vec!["extended/noctl", "entry/noctl", "done/1ctl"])] {
+        for (name, m) in pool(id) {
+            if !names.contains(&name.as_str()) {
+                continue;
+            }
+            for (d, b) in mutations(&m.to_tlv()) {
+                if d.contains("ident(") && !d.ends_with("@[1]") {
+                    continue; // identifier rewrites: of the protocolOp only
+                }
+                muts.push((format!("{}:{}:{}", prefix, name, d), b, false));
+            }
+            muts.push((format!("{}:{}:unmutated", prefix, name), m.encode(), false));
+        }
+    }
     let nm = muts.len() as u64;
     let driver_runs = AtomicU64::new(0);
     let stride = tier.pick(7u64, 1u64);
@@ -475,7 +496,10 @@ pub fn run(tier: Tier) -> i32 {
         // the driver lane: quick runs a third of the mutants (every mutant of every third node), thorough all
         let ident = label.contains(":ident(");
         let result_msg = label.starts_with("done/") || label.starts_with("bind/noctl");
-        let run_driver = if ident { result_msg && (tier == Tier::Thorough || label.starts_with("done/noctl") || i % 5 == 0) } else { i % stride == 0 };
+        let unmatched = (i as usize) >= n_matched;
+        let run_driver = if unmatched {
+            tier == Tier::Thorough || i % 3 == 0 || label.contains("deleted@") || label.contains("emptied@") || label.contains("len=")
+        } else if ident { result_msg && (tier == Tier::Thorough || label.starts_with("done/noctl") || i % 5 == 0) } else { i % stride == 0 };
         if run_driver || label.ends_with("unmutated") {
             through_driver(&rep, label, b, false, &evals);
             through_driver(&rep, label, b, true, &evals);
@@ -543,7 +567,7 @@ pub fn run(tier: Tier) -> i32 {
     let c = cov(vec![
         ("evaluations", json!(total)),
         ("distinct_nontrivial", json!(complete.load(Ordering::Relaxed) + driver_runs.load(Ordering::Relaxed))),
-        ("rule", json!("a: every byte string up to the stated length over 24 BER-relevant octets, plus envelope-shaped prefixes with every tail; b: every single-field mutation (length -2,-1,+1,+2,=0,=0x7fffffff, every non-minimal form, indefinite, class, constructed bit, tag number 0..30, node deleted/duplicated, content emptied/truncated at every byte/extended, frame truncated at every byte) of every node of 19 valid responses, through the decoder and through the real driver with a single operation and with a search pending on the message's ID; c: nesting depths up to 250000 in a child process on a 2 MiB stack. non-trivial = inputs whose outer element is completely present (the decoder must decide) + driver runs")),
+        ("rule", json!("a: every byte string up to the stated length over 24 BER-relevant octets, plus envelope-shaped prefixes with every tail; b: every single-field mutation (length -2,-1,+1,+2,=0,=0x7fffffff,=2^32,=2^63-1,=2^64-1, every non-minimal form, indefinite, class, constructed bit, tag number 0..30, node deleted/duplicated, content emptied/truncated at every byte/extended, frame truncated at every byte) of every node of 19 valid responses, through the decoder and through the real driver with a single operation and with a search pending on the message's ID, and of unsolicited (ID 0) and unused-ID frames with operations pending on another ID; c: nesting depths up to 250000 in a child process on a 2 MiB stack. non-trivial = inputs whose outer element is completely present (the decoder must decide) + driver runs")),
         ("short_strings", json!(short_total)),
         ("short_max_len", json!(maxlen)),
         ("envelope_shaped", json!(env_total)),
